@@ -884,6 +884,11 @@ func c02Reader(c *fw.Ctx) fw.Outcome {
 			return fw.Bad(key, string(doc), "WebVTT reader, rendering {%s}: %s\ndocument: %q", o, firstDiff(exp, have), trunc(string(doc), 1200))
 		}
 		c.Feature(fmt.Sprintf("read eol=%q bom=%v id=%d short=%v tabs=%v ts=%v", o.eol, o.bom, o.idKind, o.shortTime, o.tabs, o.tsBeforeTags))
+		if c.Idx%4 == 3 {
+			if msg := altEntryPoints(c, "vtt", doc, got, nil); msg != "" {
+				return fw.Bad(key, string(doc), "%s", msg)
+			}
+		}
 		c.Count("reader_documents", 1)
 	}
 	return fw.OK(fw.HashString(vttDenote(model, true)), map[string]interface{}{"direction": "read", "model": trunc(vttDenote(model, true), 1500)})
@@ -899,6 +904,11 @@ func c02Writer(c *fw.Ctx) fw.Outcome {
 	var err error
 	if p := guard(func() { err = sub.WriteToWebVTT(&b) }); p != "" || err != nil {
 		return fw.Bad(fw.HashString(vttDenote(model, false)), nil, "writer failed: %v %s", err, p)
+	}
+	if c.Idx%4 == 3 {
+		if msg := altWrite(c, "vtt", sub, b.Bytes()); msg != "" {
+			return fw.Bad(fw.HashBytes(b.Bytes()), b.String(), "%s", msg)
+		}
 	}
 	doc := b.Bytes()
 	key := fw.HashBytes(doc)
